@@ -27,10 +27,42 @@ def prims_of(code, acc=None):
     return acc
 
 
-def run_case(ctx, pid, label, code, env=None, mode='values', deep_types=False, extra_case=None):
-    """Runs one program on model and real interpreter, records the verdict. Returns the Outcome."""
-    out = L.run_both(code, env, mode=mode, keep_objects=deep_types)
+def P_(prim, *args):
+    return {'prim': prim, 'args': list(args)} if args else {'prim': prim}
+
+
+_NAT, _STR = {'prim': 'nat'}, {'prim': 'string'}
+# cells that fail AFTER having entered a protected region (DIP / DIP n / ITER / MAP / lambda body): the session must be as if
+# they never ran, so a program executed afterwards on the same interpreter behaves as on a fresh one
+POISON = [
+    [P_('PUSH', _NAT, {'int': '1'}), P_('PUSH', _NAT, {'int': '2'}), P_('DIP', [P_('PUSH', _STR, {'string': 'boom'}), P_('FAILWITH')])],
+    [P_('PUSH', _NAT, {'int': '1'}), P_('PUSH', _NAT, {'int': '2'}), P_('PUSH', _NAT, {'int': '3'}), P_('DIP', {'int': '2'}, [P_('UNIT'), P_('FAILWITH')])],
+    [P_('PUSH', _NAT, {'int': '1'}), P_('PUSH', _NAT, {'int': '2'}), P_('DIP', [P_('DIP', [P_('UNIT'), P_('FAILWITH')])])],
+    [P_('PUSH', _NAT, {'int': '7'}), P_('PUSH', {'prim': 'list', 'args': [_NAT]}, [{'int': '1'}, {'int': '2'}]), P_('ITER', [P_('DIP', [P_('UNIT'), P_('FAILWITH')])])],
+    [P_('PUSH', _NAT, {'int': '1'}), P_('PUSH', _STR, {'string': 'a'}), P_('DIP', [P_('PUSH', _NAT, {'int': '2'}), P_('ADD'), P_('PUSH', _STR, {'string': 'x'}), P_('ADD')])],
+    [P_('PUSH', _NAT, {'int': '1'}), P_('PUSH', _NAT, {'int': '5'}), P_('LAMBDA', _NAT, _NAT, [P_('PUSH', _NAT, {'int': '1'}), P_('DIP', [P_('FAILWITH')])]), P_('SWAP'), P_('DIP', [P_('SWAP')]), P_('EXEC')],
+    [P_('PUSH', _STR, {'string': 'boom'}), P_('FAILWITH')],
+]
+
+
+def run_case(ctx, pid, label, code, env=None, mode='values', deep_types=False, extra_case=None, poison=None):
+    """Runs one program on model and real interpreter, records the verdict. Returns the Outcome.
+    poison: a failing cell executed first on the same interpreter (the REPL restores its state after a failure)."""
+    it = None
+    if poison is not None:
+        from rv.hooks import drive as D_
+        it = D_.new_interpreter()
+        pres = it.execute(poison)
+        if pres.error is None:
+            ctx.count('poison_cells_that_did_not_fail')
+            it = None
+        else:
+            ctx.count('programs_run_after_a_failed_cell_on_the_same_interpreter')
+            label = label + '+after-failed-cell'
+    out = L.run_both(code, env, mode=mode, keep_objects=deep_types, interp=it)
     case = {'code': code, 'env': env_to_json(env), 'label': label}
+    if poison is not None:
+        case['poison'] = poison
     if extra_case:
         case.update(extra_case)
     prims = prims_of(code)
@@ -49,6 +81,14 @@ def run_case(ctx, pid, label, code, env=None, mode='values', deep_types=False, e
     ctx.count('model_outcome_' + out.model.kind)
     if out.kind == 'agree':
         ctx.count('agree')
+        if deep_types and out.mon.objects:
+            # every value that was on the stack at any point, not only the final ones: each container's declared component
+            # types vs the components it holds
+            walked, bad = L.self_consistency(out.mon, 2000)
+            ctx.count('objects_walked_for_self_consistency', walked)
+            if bad:
+                ctx.violation('%s|%s' % (pid, bad[0]), '%s: %s' % (label, bad[1]), case)
+                return out
         if deep_types and out.model.kind == 'ok' and out.mon.objects:
             objs = out.mon.objects[-1]
             for j, (obj, (mt, _mv)) in enumerate(zip(objs, out.model.events[-1][1])):
@@ -61,7 +101,7 @@ def run_case(ctx, pid, label, code, env=None, mode='values', deep_types=False, e
                                   'final slot %d at %s: %s type %s, expected %s' % (j, path, how, found if isinstance(found, str) else T.show(found), T.show(exp)), case)
                     break
         return out
-    if mode == 'types' and getattr(out, 'div', {}).get('class') != 'type':
+    if mode == 'types' and getattr(out, 'div', {}).get('class') not in ('type', 'stack-depth'):
         ctx.count('diverged_for_non_type_reasons_not_judged_here')   # value / control-flow divergences belong to C01
         return out
     ctx.violation('%s|%s' % (pid, out.sig), '%s: %s' % (label, out.detail), case)
